@@ -31,6 +31,10 @@ std::string describe_live(size_t max_items = 8);
 // requested size of a live block, or (size_t)-1 if p is not a live block
 size_t block_size(const void *p);
 // the next release of p must find all `size` bytes zero (secure variants)
+// The n bytes directly behind a live block (part of its guard band) are handed to the harness as memory of a neighbouring object: it may
+// write them, the block is never grown in place over them, and they are no longer checked as guard bytes. Returns their address
+// (= block + requested size) or nullptr. Packed allocators (no headers between blocks) make such neighbours an everyday situation.
+uint8_t *lend_tail(const void *p, size_t n);
 void expect_zero_on_release(const void *p);
 void clear_expect_zero(const void *p);
 // every release must find its block zero-filled (used by C01 file harness on failure paths)
